@@ -600,6 +600,13 @@ def runNumeric (lines : List String) : IO Unit := do
           for (x, y) in tab.zip od do
             if !closeC x y (1.0e-10 * (1.0 + y.abs)) then
               a ← failChi a "C02" s!"frequency table (clear={clear}) of chi_{i}{j}{k}{l}: ({x.re},{x.im}) vs on-demand ({y.re},{y.im})"
+    | ["o", "chilong", i, j, k, l, vanishing, want, got, dev] =>
+      -- a 67-entry table (not a multiple of any small thread/rank count) against on-demand evaluation of another object
+      a := a.bump "chi_long_tables"
+      if got != want && !(vanishing == "1" && got == "0") then
+        a ← fail a "C02" s!"frequency table of chi_{i}{j}{k}{l} has {got} entries for {want} frequencies"
+      else if got == want && !a.truncated && !(fOf dev ≤ 1.0e-10) then
+        a ← failChi a "C02" s!"frequency table of chi_{i}{j}{k}{l} ({want} entries) deviates from on-demand evaluation by {sci (fOf dev)} (relative)"
     | ["o", "chiafter", i, j, k, l, n1, n2, n3, re, im] =>
       let v := parseC re im
       match lookupSeen a s!"chi {i} {j} {k} {l} {n1} {n2} {n3}" with
